@@ -1,5 +1,195 @@
-// stub: check for C16 not built yet
+use std::sync::Arc;
+
+use c16::*;
+use vcore::proptest::prelude::*;
+use vcore::Level as VLevel;
+
+const RULE: &str = "cases are (a) triples of templates: a generated part sequence (text fragments incl. empty and adjacent ones over an alphabet of 1-4 byte characters, holes with repeated/empty/odd labels and optional formatters, each part backed by a static, borrowed, owned or shared string) plus two partners derived from it -- the same meaning re-split at arbitrary character boundaries with extra empty fragments (equal by construction), one/two-edit mutants of the meaning (char replaced/inserted/deleted, hole renamed/dropped/inserted/swapped/turned into `{label}` text), or an independent sequence -- each built through one of new/new_ref/From<&[Part]>/new_owned/literal/literal_ref and up to two of by_ref/to_owned/clone; all 9 ordered comparisons are judged against the normal form (merge adjacent text, drop empty) and the laws, and every template is rendered with a property list containing duplicate keys into a String, through Display, a recording template::Write, a default-method Write, a failing Write and Event::msg; (b) the complete set of ordered pairs of part sequences up to length 3 (thorough: 4) over a 7-part alphabet; (c) rendering-focused single templates with larger property lists. Non-trivial = a pair whose fragment boundaries differ inside a run containing a multi-byte character, or a template with an empty fragment adjacent to a hole (for (c): a hole filled from the properties next to non-ASCII/empty text or an unfilled hole).";
+
+fn text() -> impl Strategy<Value = String> {
+    prop_oneof![
+        2 => Just(String::new()),
+        8 => prop::collection::vec(prop::sample::select(TEXT_CHARS.to_vec()), 1..=4).prop_map(|v| v.into_iter().collect::<String>()),
+    ]
+}
+
+fn flavor_s() -> impl Strategy<Value = Flavor> {
+    (0u8..4).prop_map(flavor)
+}
+
+fn label() -> impl Strategy<Value = String> {
+    prop_oneof![
+        3 => prop::sample::select(LABELS[..5].to_vec()),
+        2 => prop::sample::select(LABELS.to_vec()),
+    ]
+    .prop_map(|s| s.to_string())
+}
+
+fn fmt_id() -> impl Strategy<Value = Option<u8>> {
+    prop_oneof![3 => Just(None), 1 => (0..N_FMT).prop_map(Some)]
+}
+
+fn text_part() -> impl Strategy<Value = P> {
+    (text(), flavor_s()).prop_map(|(t, f)| P::T(t, f))
+}
+
+fn part() -> impl Strategy<Value = P> {
+    prop_oneof![
+        55 => text_part(),
+        45 => (label(), fmt_id(), flavor_s()).prop_map(|(l, f, fl)| P::H(l, f, fl)),
+    ]
+}
+
+fn parts() -> impl Strategy<Value = Vec<P>> {
+    prop_oneof![
+        8 => prop::collection::vec(part(), 0..7),
+        2 => prop::collection::vec(text_part(), 0..4),
+    ]
+}
+
+fn resplit_s() -> impl Strategy<Value = Resplit> {
+    (
+        prop::collection::vec((prop::collection::vec(any::<u32>(), 0..4), any::<bool>()), 0..4),
+        prop::collection::vec(0u8..4, 0..4),
+    )
+        .prop_map(|(runs, flavors)| Resplit { runs, flavors })
+}
+
+fn edit() -> impl Strategy<Value = Edit> {
+    let ch = 0u8..TEXT_CHARS.len() as u8;
+    let lb = 0u8..LABELS.len() as u8;
+    prop_oneof![
+        4 => (any::<u32>(), any::<u32>(), ch.clone()).prop_map(|(r, p, c)| Edit::ReplaceChar(r, p, c)),
+        3 => (any::<u32>(), any::<u32>(), ch).prop_map(|(r, p, c)| Edit::InsertChar(r, p, c)),
+        3 => (any::<u32>(), any::<u32>()).prop_map(|(r, p)| Edit::DeleteChar(r, p)),
+        3 => (any::<u32>(), lb.clone()).prop_map(|(h, l)| Edit::RenameHole(h, l)),
+        2 => any::<u32>().prop_map(Edit::DropHole),
+        2 => (any::<u32>(), any::<u32>(), lb).prop_map(|(r, p, l)| Edit::InsertHole(r, p, l)),
+        2 => any::<u32>().prop_map(Edit::HoleToText),
+        1 => any::<u32>().prop_map(Edit::SwapHoles),
+        1 => (any::<u32>(), fmt_id()).prop_map(|(h, f)| Edit::SetFmt(h, f)),
+    ]
+}
+
+fn derive_s() -> impl Strategy<Value = Derive> {
+    prop_oneof![
+        5 => resplit_s().prop_map(Derive::Resplit),
+        4 => (prop::collection::vec(edit(), 1..=2), resplit_s()).prop_map(|(e, r)| Derive::Mutant(e, r)),
+        1 => parts().prop_map(Derive::Independent),
+    ]
+}
+
+fn shape() -> impl Strategy<Value = Shape> {
+    let form = prop_oneof![
+        Just(Form::New),
+        Just(Form::NewRef),
+        Just(Form::FromSlice),
+        Just(Form::NewOwned),
+        Just(Form::Literal),
+        Just(Form::LiteralRef),
+    ];
+    let conv = prop_oneof![Just(Conv::ByRef), Just(Conv::ToOwned), Just(Conv::Clone)];
+    (form, prop::collection::vec(conv, 0..=2)).prop_map(|(form, conv)| Shape { form, conv })
+}
+
+fn val() -> impl Strategy<Value = Val> {
+    prop_oneof![
+        4 => text().prop_map(Val::S),
+        1 => prop::sample::select(vec!["Rust", "{x}", "a\"b\\", "  ", "längere Zeichenkette"]).prop_map(|s| Val::S(s.to_string())),
+        2 => prop_oneof![any::<i64>(), -20i64..20].prop_map(Val::I),
+        1 => prop_oneof![any::<u64>(), Just(u64::MAX)].prop_map(Val::U),
+        1 => (any::<i64>(), any::<u64>()).prop_map(|(h, l)| Val::Big(h, l)),
+        2 => prop_oneof![
+            Just(0.0f64), Just(-0.0), Just(1.5), Just(1e21), Just(1e-7), Just(100.0),
+            (-1_000_000i32..1_000_000).prop_map(|v| v as f64 / 128.0),
+        ].prop_map(Val::F),
+        1 => any::<bool>().prop_map(Val::B),
+    ]
+}
+
+fn props(max: usize) -> impl Strategy<Value = Vec<(String, Val)>> {
+    let key = prop_oneof![9 => label(), 1 => Just("zz".to_string())];
+    prop::collection::vec((key, val()), 0..=max)
+}
+
+fn opts() -> impl Strategy<Value = RenderOpts> {
+    (0u16..40, any::<bool>(), 0u8..3).prop_map(|(budget, rec_by_value, props_kind)| RenderOpts { budget, rec_by_value, props_kind })
+}
+
+fn triple() -> impl Strategy<Value = Triple> {
+    (parts(), derive_s(), derive_s(), [shape(), shape(), shape()], props(5), opts())
+        .prop_map(|(base, b, c, shapes, props, opts)| Triple { base, b, c, shapes, props, opts })
+}
+
+fn render_case() -> impl Strategy<Value = RenderCase> {
+    (prop::collection::vec(part(), 1..10), shape(), props(12), opts())
+        .prop_map(|(parts, shape, props, opts)| RenderCase { parts, shape, props, opts })
+}
+
+fn small_seqs(max_len: usize) -> Vec<Vec<u8>> {
+    let mut all = vec![vec![]];
+    let mut frontier = vec![vec![]];
+    for _ in 0..max_len {
+        let mut next = Vec::new();
+        for s in &frontier {
+            for a in 0..SMALL_ALPHABET as u8 {
+                let mut t: Vec<u8> = s.clone();
+                t.push(a);
+                next.push(t);
+            }
+        }
+        all.extend(next.iter().cloned());
+        frontier = next;
+    }
+    all
+}
+
 fn main() {
-    eprintln!("C16: check not built yet");
-    std::process::exit(2);
+    vcore::run(
+        "C16",
+        VLevel::Exploration,
+        RULE,
+        &[
+            "the hole formatter is an opaque function: the reference applies the same format string to the native model value with std (values are strings, 64/128-bit integers, finite floats, bools, whose emit::Value Display/Debug forward formatting flags to the native impls)",
+            "two templates that differ ONLY in the formatter attached to a hole are neither required equal nor unequal by the property text: counted as don't-care (the algebraic laws are still checked on the observed results)",
+            "escaping inside Debug of a Render/Template and outer formatting flags applied to a whole Render are not part of the property and are not checked",
+            "'static-demanding constructors (Template::new, Template::literal, Part::text, Part::hole) are fed generated data whose lifetime is extended for the duration of one case (see c16::extend)",
+        ],
+        |s| {
+            s.require("split-differs-in-multibyte-run", 3_000);
+            s.require("empty-fragment-adjacent-to-hole", 3_000);
+            s.require("empty-fragment-before-hole", 2_000);
+            s.require("pair:equal-by-meaning", 3_000);
+            s.require("pair:unequal", 3_000);
+            s.require("triple:all-equal-by-construction", 1_000);
+            s.require("tpl:repeated-label", 1_000);
+            s.require("hole:absent", 3_000);
+            s.require("hole:present-plain", 3_000);
+            s.require("hole:present-with-formatter", 1_000);
+            s.require("hole:duplicate-key-with-different-values", 500);
+            s.require("hole:empty-label", 1_000);
+            s.require("render:writer-fails", 1_000);
+            for f in ["form:new", "form:new_ref", "form:from-slice", "form:new_owned", "form:literal", "form:literal_ref"] {
+                s.require(f, 1_000);
+            }
+            for c in ["conv:by_ref", "conv:to_owned", "conv:clone"] {
+                s.require(c, 3_000);
+            }
+
+            s.gen("eq-render-triples", s.n(1_200_000, 30_000_000), triple, check_triple);
+
+            let seqs = Arc::new(small_seqs(if s.quick() { 3 } else { 4 }));
+            let n = seqs.len();
+            s.enumerate(
+                "eq-small-scope-pairs",
+                (0..n * n).map({
+                    let seqs = seqs.clone();
+                    move |k| SmallPair { a: seqs[k / n].clone(), b: seqs[k % n].clone() }
+                }),
+                check_small_pair,
+            );
+
+            s.gen("render", s.n(400_000, 10_000_000), render_case, check_render_case);
+        },
+    )
 }
